@@ -112,7 +112,7 @@ class FakeConfig:
                                  f"static constexpr double innovation_filtering = {k}; }}; }}")
 
 
-class FakeGenerator:
+class _StubGenerator:
     def __init__(self, v: Valuation, w: "Witness" = None):
         self.v = v
         self._w = w
@@ -216,6 +216,172 @@ _CACHE: Dict[Any, Any] = {}
 _SHAPE: Dict[str, Any] = {}
 
 
+# ------------------------------------------------------------------------------------------------ the generator, really constructed
+import zlib as _zlib
+
+
+class WSym:
+    """a model symbol of the witness model: equal by name (like a sympy Symbol), hashed deterministically and NOT in name order, so that a
+    collection of them iterates in an arbitrary (but reproducible) order unless the generator sorts it"""
+    salt = b""
+
+    def __init__(self, name, role=None, **_assumptions):
+        self.name = str(name)
+        self.role = role
+
+    def __str__(self):
+        return self.name
+
+    def __repr__(self):
+        return self.name
+
+    def __eq__(self, o):
+        return isinstance(o, WSym) and o.name == self.name
+
+    def __hash__(self):
+        return _zlib.crc32(WSym.salt + self.name.encode())
+
+    def __lt__(self, o):
+        return self.name < str(o)
+
+    @property
+    def free_symbols(self):
+        return {self}
+
+    def subs(self, lst, *a, **k):
+        return WExpr([self]).subs(lst)
+
+    def diff(self, *a):
+        return WExpr([self])
+
+
+class WExpr:
+    """a model expression of the witness model: the symbols it depends on.  subs() is sympy's sequential substitution on them, printing gives
+    their sum -- so the emitted C++ mentions exactly what the generator substituted (or failed to)"""
+    log: List[Any] = []
+
+    def __init__(self, syms):
+        self.syms = list(syms)
+
+    def subs(self, lst, *a, **k):
+        lst = list(lst.items()) if isinstance(lst, dict) else list(lst)
+        WExpr.log.append(lst)
+        cur = list(self.syms)
+        for src, dst in lst:
+            cur = [dst if x == src else x for x in cur]
+        return WExpr(cur)
+
+    def diff(self, *a):
+        return WExpr(self.syms)
+
+    @property
+    def free_symbols(self):
+        return {x for x in self.syms if isinstance(x, WSym)}
+
+    def __str__(self):
+        return " + ".join(str(x) for x in self.syms) or "0.0"
+
+
+class WBlock:
+    """stand-in for cpp.BasicBlock (its CSE / simplify / ccode pipeline is the temporaries protocol's business, fv.tmprules): one statement per
+    (target, expression), the expression printed as it stands after the generator's substitution"""
+
+    def __init__(self, statements=(), indent=0, config=None):
+        self.statements = [(str(t), str(e)) for t, e in list(statements)]
+
+    def __len__(self):
+        return len(self.statements)
+
+    def compile(self):
+        return [_mk("MemberDeclaration", type_="", name=t, value=v) for t, v in self.statements]
+
+
+class _WNamed:
+    def __init__(self, name, arglist):
+        self.name, self.arglist = name, list(arglist)
+
+    def from_dict(self, d):
+        n = len(self.arglist)
+        c = FakeCov(n)
+        for i, a in enumerate(self.arglist):
+            for j, b in enumerate(self.arglist):
+                v = d.get((a, b), d.get((b, a), d.get(a, 0.0) if i == j else 0.0)) if isinstance(d, dict) else 0.0
+                c.data[(i, j)] = v
+        return c
+
+    def from_data(self, data):
+        return data
+
+    def __call__(self, *a, **k):
+        return FakeCov(len(self.arglist))
+
+
+class _WCommon:
+    class UiModelBase:
+        pass
+
+    @staticmethod
+    def named_vector(n, a):
+        return _WNamed(n, a)
+
+    @staticmethod
+    def named_covariance(n, a):
+        return _WNamed(n, a)
+
+    @staticmethod
+    def model_validation(*a, **k):
+        return None
+
+
+class WModel(_WCommon.UiModelBase):
+    """the witness ui.Model of a valuation: n_state states s*, controls u*, calibrations k*; every update expression depends on all of them"""
+
+    def __init__(self, v: Valuation):
+        st = [WSym(f"s{i}", "STATE") for i in range(v.n_state)]
+        ct = [WSym(f"u{i}", "CONTROL") for i in range(v.n_control)] if v.control else []
+        cal = [WSym(f"k{i}", "CALIB") for i in range(v.n_calib)] if v.calibration else []
+        self.dt = WSym("dt", "DT")
+        self.state, self.control, self.calibration = set(st), set(ct), set(cal)
+        self.state_model = {s_: WExpr(st + cal + ct + [self.dt]) for s_ in st}
+        self._st, self._ct, self._cal = st, ct, cal
+
+
+def real_generator(v: Valuation, w: "Witness"):
+    """the repo's own cpp.ExtendedKalmanFilter / cpp.Model, constructed by evaluating its __init__ (fv.minieval) on the witness model"""
+    m = WModel(v)
+    natives = {"BasicBlock": WBlock, "Symbol": WSym, "diff": (lambda a, b, *r: a.diff(b)), "common": _WCommon, "sympy": None}
+    ev = w.evaluator(natives=natives)
+    cfg_node = ev.classes.get("cpp", {}).get("Config")
+    if cfg_node is None:
+        raise core.AnalysisError("anchor missing: cpp.Config")
+    config = minieval.ClassRef(ev, "cpp", cfg_node)(innovation_filtering=5.0 if v.filtering else 0.0)
+    cal_map = {c: 0.0 for c in m._cal}
+    if v.ekf:
+        node = ev.classes.get("cpp", {}).get("ExtendedKalmanFilter")
+        if node is None:
+            raise core.AnalysisError("anchor missing: cpp.ExtendedKalmanFilter")
+        sensor_models = {n_: {f"{n_}_r{i}": WExpr(m._st + m._cal) for i in range(sz)} for n_, sz in v.sensors}
+        sensor_noises = {n_: {f"{n_}_r{i}": 1.0 for i in range(sz)} for n_, sz in v.sensors}
+        gen = minieval.ClassRef(ev, "cpp", node)(state_model=m, process_noise={c: 1.0 for c in m._ct}, sensor_models=sensor_models,
+                                                  sensor_noises=sensor_noises, namespace="gen", header_include="witness.h", config=config,
+                                                  calibration_map=cal_map)
+    else:
+        node = ev.classes.get("cpp", {}).get("Model")
+        if node is None:
+            raise core.AnalysisError("anchor missing: cpp.Model")
+        gen = minieval.ClassRef(ev, "cpp", node)(symbolic_model=m, calibration_map=cal_map, namespace="gen", header_include="witness.h", config=config)
+    gen.__dict__["v"] = v
+    gen.__dict__["_wmodel"] = m
+    return gen
+
+
+def FakeGenerator(v: Valuation, w: "Witness" = None):
+    """the generator a witness is derived from: the repo's own class constructed on the witness model (or, without a Witness, the hand-made stub)"""
+    if w is None:
+        return _StubGenerator(v, None)
+    return real_generator(v, w)
+
+
 def sensor_shape(ctx: core.Ctx):
     """field names and roles of the entries of cpp.ExtendedKalmanFilter.sensorlist, from the layout interpreter's evaluation of __init__
     (the stand-in generator must present the same record shape to the fragment code as the real one)"""
@@ -300,7 +466,7 @@ class Witness:
             self.tpl_cache[rel] = self.ctx.read(rel)
         return minieval.render_template(self.tpl_cache[rel], inserts)
 
-    def skeleton(self, v: Valuation) -> Tuple[List[str], FakeGenerator]:
+    def skeleton(self, v: Valuation) -> Tuple[List[str], Any]:
         ev = self.evaluator()
         gen = FakeGenerator(v, self)
         header = ev.call_named("cpp", "_header_body", generator=gen)
@@ -314,7 +480,7 @@ class Witness:
         out.append("} // namespace gen")
         return out, gen
 
-    def driver(self, v: Valuation, gen: FakeGenerator) -> List[str]:
+    def driver(self, v: Valuation, gen) -> List[str]:
         cal = ", cal" if v.calibration else ""
         ctl = ", u" if v.control else ""
         if not v.ekf:
@@ -336,12 +502,13 @@ class Witness:
             d.append("  Control u;")
         d.append(f"  MF mf(0.0, sv{cal});")
         d.append(f"  StateAndVariance r1 = mf.tick(1.0{ctl});")
-        rs = ", ".join(f"MF::wrap({0.25 * (i + 1)}, {r.typename}{{}})" for i, r in enumerate(gen._readings))
+        readings = list(gen.reading_types()) if not isinstance(gen, _StubGenerator) else gen._readings
+        rs = ", ".join(f"MF::wrap({0.25 * (i + 1)}, {r.typename}{{}})" for i, r in enumerate(readings))
         d.append(f"  std::vector<MF::StampedReading> rs{{{rs}}};")
         d.append(f"  StateAndVariance r2 = mf.tick(2.0{ctl}, rs);")
         d.append("  ExtendedKalmanFilter ekf;")
         d.append(f"  StateAndVariance h1 = ekf.process_model(0.1, sv{cal}{ctl});")
-        for r in gen._readings:
+        for r in readings:
             d.append(f"  StateAndVariance h_{r.typename} = ekf.sensor_model(h1{cal}, {r.typename}{{}});")
             d.append(f"  std::optional<typename {r.typename}::InnovationT> i_{r.typename} = ekf.innovations<{r.typename}>();")
             d.append(f"  {r.typename} o_{r.typename}({r.typename}Options{{}});")
